@@ -164,7 +164,24 @@ def run_est_case(case):
     vb, fb = project(b, scale) if b is not None else ([], [])
     ranks = dense_ranks(s)
     top = ranks == ranks.max()
-    return {"kind": case["kind"], "alg": case["alg"], "n": int(len(s)), "scale": int(scale),
+    ref = []
+    if case["kind"] == "pep" and case["alg"] == "qvality" and a is not None:
+        # reference for the ALIGNMENT of the qvality estimator: the third-party routine itself (triqler), which reports its
+        # PEPs from the best to the worst score; mokapot's wrapper has to hand each PSM the value computed for it
+        try:
+            from triqler import qvality as TQ
+            old_verb, TQ.VERB = TQ.VERB, 0
+            try:
+                _, rp = TQ.getQvaluesFromScores(s[t], s[~t], includeDecoys=True, includePEPs=True, tdcInput=False)
+            finally:
+                TQ.VERB = old_verb
+            if len(rp) == len(s):
+                ref = project(np.asarray(rp, dtype=np.float64), scale)[0]
+        except BaseException as e:
+            if isinstance(e, KeyboardInterrupt):
+                raise
+            ref = []
+    return {"kind": case["kind"], "alg": case["alg"], "n": int(len(s)), "scale": int(scale), "ref": ref,
             "ranks": [int(x) for x in ranks], "targets": [bool(x) for x in t], "perm": [int(x) + 1 for x in p],
             "values": va, "flags": fa, "values_perm": vb, "flags_perm": fb, "raised": ra, "raised_perm": rb,
             # input features, for the classification of rejected cases only
@@ -200,7 +217,9 @@ def run_file_case(case):
         left[lab] -= 1
         rows.append({"id": i + 1, "spec": i + 1, "pep": cur[lab], "tgt": lab, "feats": [float(s[i]), 0.0]})
     ranks = dense_ranks(s)
-    rank_of = {float(x): int(r) for x, r in zip(s.tolist(), ranks.tolist())}
+    desc = bool(case.get("desc", True))
+    s_in = s if desc else -s                          # a lower-is-better score handed over with descs=[False]
+    rank_of = {float(x): int(r) for x, r in zip(s_in.tolist(), ranks.tolist())}
     wd = Path(tempfile.mkdtemp(prefix="c06_"))
     raised = ""
     traces = []
@@ -211,8 +230,8 @@ def run_file_case(case):
         ds = mk.make_dataset(df, wd / "in.pin")
         try:
             with mk.patched(CONFIDENCE_CHUNK_SIZE=case["chunk"]):
-                mokapot.assign_confidence(psms=[ds], max_workers=1, scores=[s.copy()], dest_dir=out, decoys=True,
-                                          prefixes=[None], peps_algorithm=case["alg"])
+                mokapot.assign_confidence(psms=[ds], max_workers=1, scores=[s_in.copy()], dest_dir=out, decoys=True,
+                                          prefixes=[None], peps_algorithm=case["alg"], **({} if desc else {"descs": [False]}))
         except KeyboardInterrupt:
             raise
         except BaseException as e:
@@ -233,7 +252,7 @@ def run_file_case(case):
                     except (TypeError, ValueError):
                         vals.append(float("nan"))
             v, fl = project(np.asarray(vals, dtype=np.float64), SCALE)
-            traces.append({"kind": "file", "alg": case["alg"], "level": level, "n": len(rk), "scale": SCALE,
+            traces.append({"kind": "file", "alg": case["alg"], "level": level, "n": len(rk), "scale": SCALE, "ref": [],
                            "ranks": rk, "targets": [], "values": v, "flags": fl, "raised": raised,
                            "_rows": nrows})
     finally:
@@ -287,9 +306,12 @@ def make_cases(ctx, shapes):
     for j in range(ntab):
         rng = np.random.default_rng([int(ctx.seed), 606, j])
         n = int(rng.integers(600, 2001))
-        for alg in ("qvality", "kde_nnls"):
-            cases.append({"kind": "file", "alg": alg, "n": n, "mixture": ["separated", "overlapping", "mostly_null"][j % 3],
-                          "chunk": [1000000, 400][j % 2], "seed": [int(ctx.seed), 606, j]})
+        for alg in ("qvality", "kde_nnls", "hist_nnls"):
+            for desc in (True, False):
+                if alg == "hist_nnls" and desc:
+                    continue
+                cases.append({"kind": "file", "alg": alg, "n": n, "mixture": ["separated", "overlapping", "mostly_null"][j % 3],
+                              "chunk": [1000000, 400][j % 2], "seed": [int(ctx.seed), 606, j], "desc": desc})
     return cases
 
 
@@ -342,6 +364,18 @@ def corrupt(tr, how):
     elif how == "nan":
         i = n // 2
         t["values"][i], t["flags"][i] = 0, "nan"
+    elif how == "dense":
+        # every PSM gets the reference value at the position of its DISTINCT score (not of its row): still monotone, equal
+        # within ties and independent of the row order -- only the comparison with the reference can see it
+        ref = t.get("ref") or []
+        if len(ref) != n or "values_perm" not in t or len(set(t["ranks"])) == n:
+            return None
+        distinct = sorted(set(t["ranks"]), reverse=True)
+        pos = {r: k for k, r in enumerate(distinct)}
+        t["values"] = [ref[pos[r]] for r in t["ranks"]]
+        t["values_perm"] = [t["values"][j - 1] for j in t["perm"]]
+        if not any(abs(a - b) > 1 for a, b in zip(t["values"], v)):
+            return None
     elif how == "tie":
         seen = {}
         pair = None
@@ -474,7 +508,8 @@ def run(ctx):
     if len(pool) < 20:
         raise MachineryError("only %d accepted traces to corrupt" % len(pool))
     for how, name in (("reverse", "returned vector reversed"), ("gt1", "one value out of range (> 1 / < 0)"),
-                      ("nan", "one value NaN"), ("tie", "one tie broken by 5e-9")):
+                      ("nan", "one value NaN"), ("tie", "one tie broken by 5e-9"),
+                      ("dense", "qvality values looked up by the rank of the distinct score")):
         bad = []
         for i in crng.permutation(len(pool)):
             b = corrupt(pool[int(i)], how)
@@ -487,8 +522,11 @@ def run(ctx):
     ctx.assume("returned floats are projected to round(value * scale), scale = 1e9 for PEPs (largest power of ten <= 1e9 "
                "keeping the integers inside 32 bits for the unbounded from_counts q-values); the acceptor allows "
                "eps = 1 quantum in every comparison")
-    ctx.assume("domain: >= 50 targets and >= 50 decoys and >= 20 distinct score values; desc=True only for the "
-               "result files (descs=[False] is ignored by assign_confidence: C07's finding)")
+    ctx.assume("domain: >= 50 targets and >= 50 decoys and >= 20 distinct score values; result files also for a lower-is-better "
+               "score handed over with descs=[False] (every PSM its own spectrum there, so C07's finding F-07b does not change "
+               "which rows are kept)")
+    ctx.assume("qvality alignment reference: triqler's getQvaluesFromScores itself (third party), judged only when it gives equal "
+               "PEPs to equal scores")
     return ctx.finish(
         rule="cases = every shape enumerated by TLC from PepContract!Shapes (kind x algorithm x mixture class x tie "
              "pattern x permutation class x size class) x seeded repetitions (null family normal/gumbel/expo, affine "
